@@ -58,13 +58,16 @@ Definition base64_encode (bs : list Z) : option (list Z) :=
 (* ---- decode ---- *)
 Inductive dres := DOk (bs : list Z) | DBadChar (c : Z) | DLengthError.
 
-(* count_padding: number of trailing '=' *)
-Fixpoint count_padding_rev (r : list Z) : nat :=
-  match r with
-  | c :: r' => if c =? 61 then S (count_padding_rev r') else O
-  | [] => O
+(* count_padding: number of trailing '=' (one right-to-left pass: count, and
+   whether everything to the right so far was '=') *)
+Fixpoint count_padding_aux (cs : list Z) : nat * bool :=
+  match cs with
+  | [] => (O, true)
+  | c :: r =>
+    let (n, all) := count_padding_aux r in
+    if all && (c =? 61) then (S n, true) else (n, false)
   end.
-Definition count_padding (cs : list Z) : nat := count_padding_rev (rev cs).
+Definition count_padding (cs : list Z) : nat := fst (count_padding_aux cs).
 
 Fixpoint dec_loop (cs : list Z) (val valb : Z) : dres :=
   match cs with
@@ -106,4 +109,4 @@ Fixpoint rfc4648 (bs : list Z) : list Z :=
   end.
 
 Definition is_alpha (c : Z) : bool := existsb (Z.eqb c) b64_alphabet.
-Definition strip_padding (cs : list Z) : list Z := rev (skipn (count_padding cs) (rev cs)).
+Definition strip_padding (cs : list Z) : list Z := firstn (length cs - count_padding cs) cs.
